@@ -1,7 +1,7 @@
 SPECIFICATION GenSpec
 CONSTANTS Kinds = {"buf", "hmeta", "reply", "rawdata", "geninfo", "metabuf", "cxxref", "bare"}
   NH = 2 NObj = 2 Max = 20 MaxExtra = 1 AsFound = FALSE
-CONSTRAINT NoGapWalk
+CONSTRAINT NarrowGap
 VIEW Skel
 ACTION_CONSTRAINT Emit
 CHECK_DEADLOCK FALSE
